@@ -1043,6 +1043,10 @@ func (hv *Hash) EachWithIndex(consumer px.IndexedConsumer) {
 }
 
 func (hv *Hash) Equals(o interface{}, g px.Guard) bool {
+	if mv, ok := o.(*MutableHashValue); ok {
+		// A mutable hash is the hash of its entries, also when it is the argument (or else it is not even equal to itself)
+		o = &mv.Hash
+	}
 	if ov, ok := o.(*Hash); ok {
 		if top := len(hv.entries); top == len(ov.entries) {
 			ovIndex := ov.valueIndex()
